@@ -9,6 +9,7 @@ package main
 //	grepio  <options> bs=<n> w=<n> [nosd] [lay=a.b.c] [perm=i.j.k] | <records> | T …
 //	annotio <options> bs=<n> w=<n> [lay=…] [perm=…]               | <records> | T …
 //	distio  <dist options> bs=<n> w=<n> [lay=…] [perm=…]          | <records>
+//	        (pat=<hex prefix>:<hex suffix> = the pattern prefix%ssuffix, or rawpat=<hex> = the pattern as it is typed)
 //
 // lay = sizes of the input batches (a batch may be empty), perm = order in which the batches are
 // pushed (arrival order); the result never depends on them (that is the theorem): the model ignores
@@ -285,10 +286,46 @@ type c16Dist struct {
 	lay, perm      []int
 	toks           []string
 	app            bool                // --append
+	raw            string              // rawpat=: the pattern as it is typed (any mix of text, %% and verbs)
+	hasRaw, rawOK  bool                // rawOK: the reference accepts it (text, %%, exactly one %s)
 	old            [][2]string         // files present before the run: name, ids joined by '.'
 }
 
 var c16PatRe = regexp.MustCompile(`^[A-Za-z0-9_.]*$`)
+
+// a pattern as it is typed: text, '%', and what a formatting verb may hold
+var c16RawPatRe = regexp.MustCompile(`^[A-Za-z0-9_][A-Za-z0-9_.%\[\]+-]*$`)
+
+// reference reading of a typed pattern (independent of fmt): text, %% = a percent sign, exactly one %s;
+// anything else does not print the class value once and in full and must be refused
+func c16SplitPattern(p string) (pre, suf string, ok bool) {
+	verbs := 0
+	var cur strings.Builder
+	for i := 0; i < len(p); i++ {
+		if p[i] != '%' {
+			cur.WriteByte(p[i])
+			continue
+		}
+		if i+1 >= len(p) {
+			return "", "", false
+		}
+		i++
+		switch p[i] {
+		case '%':
+			cur.WriteByte('%')
+		case 's':
+			verbs++
+			if verbs > 1 {
+				return "", "", false
+			}
+			pre = cur.String()
+			cur.Reset()
+		default:
+			return "", "", false
+		}
+	}
+	return pre, cur.String(), verbs == 1
+}
 
 // class values that are plain file name parts (a dot is allowed after the first character: x.gz)
 var c16KeyRe = regexp.MustCompile(`^[A-Za-z0-9_][A-Za-z0-9_.:]*$`)
@@ -392,6 +429,11 @@ func c16ParseDist(ws []string) (*c16Dist, bool) {
 					seenOld[id] = true
 				}
 			}
+		case "rawpat":
+			d.raw, ok = c16Ascii(x)
+			ok = ok && c16RawPatRe.MatchString(d.raw)
+			d.hasRaw = true
+			d.pre, d.suf, d.rawOK = c16SplitPattern(d.raw)
 		case "pat":
 			p := strings.Split(x, ":")
 			if len(p) != 2 {
@@ -408,7 +450,7 @@ func c16ParseDist(ws []string) (*c16Dist, bool) {
 			return nil, false
 		}
 	}
-	if !seen["pat"] || (d.cl == "" && d.n == 0 && d.h == 0) || (d.dir != "" && d.cl == "") {
+	if seen["pat"] == seen["rawpat"] || (d.cl == "" && d.n == 0 && d.h == 0) || (d.dir != "" && d.cl == "") {
 		return nil, false
 	}
 	return d, true
@@ -423,7 +465,11 @@ func (d *c16Dist) argv() []string {
 			av = append(av, "-"+short, val)
 		}
 	}
-	opt("p", "pattern", d.pre+"%s"+d.suf)
+	if d.hasRaw {
+		opt("p", "pattern", d.raw)
+	} else {
+		opt("p", "pattern", d.pre+"%s"+d.suf)
+	}
 	if d.cl != "" {
 		opt("c", "classifier", d.cl)
 	}
@@ -487,7 +533,11 @@ func (d *c16Dist) refFile(i int, r c16Rec) (string, bool) {
 	}
 	// compressed output: every file name ends with .gz — the pattern says so itself, or .gz is appended
 	name := d.pre + key + d.suf
-	if d.z && !strings.HasSuffix(d.pre+"%s"+d.suf, ".gz") {
+	pattern := d.pre + "%s" + d.suf
+	if d.hasRaw {
+		pattern = d.raw
+	}
+	if d.z && !strings.HasSuffix(pattern, ".gz") {
 		name += ".gz"
 	}
 	if dir != "" {
@@ -541,6 +591,12 @@ func (c16) execDistIO(ws []string, recs []c16Pair) (string, []Fail) {
 		}
 		expFiles[fn] = append(expFiles[fn], p.r.id)
 	}
+	// a typed pattern that does not print the class value once and in full: the command must stop (no file,
+	// no record silently lost); if it runs all the same, the property still asks for every record exactly once
+	refused := d.hasRaw && !d.rawOK
+	if refused && (d.app || len(d.old) > 0) {
+		return "bad-op", nil
+	}
 	// --append: the old content of a file of the run is kept in front; without it, it is lost; the files the
 	// run does not write are untouched
 	for _, o := range d.old {
@@ -589,6 +645,12 @@ func (c16) execDistIO(ws []string, recs []c16Pair) (string, []Fail) {
 		if len(rest) != 0 {
 			return "rest"
 		}
+		if d.hasRaw {
+			// CLIDistributeSequence calls CLIFileNamePattern (a function of the option globals alone) once the
+			// pipeline is started; in the command its panic ends the process.  Here it is called first, so that
+			// a refused pattern does not leave a started pipeline behind in the harness process.
+			obidistribute.CLIFileNamePattern()
+		}
 		sl := make([]*obiseq.BioSequence, len(recs))
 		for i, p := range recs {
 			sl[i] = p.r.bio()
@@ -597,6 +659,10 @@ func (c16) execDistIO(ws []string, recs []c16Pair) (string, []Fail) {
 		obiiter.WaitForLastPipe()
 		return "ok"
 	})
+	if refused && st == "panic" {
+		stat("distio.pattern-refused")
+		return "panic", nil
+	}
 	if st != "ok" {
 		return st, []Fail{{Sig: "distio." + st, Text: "obidistribute ended with " + st}}
 	}
@@ -626,7 +692,7 @@ func (c16) execDistIO(ws []string, recs []c16Pair) (string, []Fail) {
 		for _, id := range got[n] {
 			count[id]++
 		}
-		if _, ok := expFiles[n]; !ok {
+		if _, ok := expFiles[n]; !ok && !refused {
 			fails = append(fails, Fail{Sig: "distio.unexpected-file", Text: "file " + n + " is not the file of any record"})
 		}
 	}
@@ -637,6 +703,9 @@ func (c16) execDistIO(ws []string, recs []c16Pair) (string, []Fail) {
 		}
 	}
 	for n, ids := range expFiles {
+		if refused {
+			break
+		}
 		if show(got[n]) != show(ids) {
 			fails = append(fails, Fail{Sig: "distio.routing", Text: fmt.Sprintf("file %s: %s, expected %s", n, show(got[n]), show(ids))})
 			break
@@ -949,6 +1018,33 @@ func c16GenPipe(rng *rand.Rand, tier string, emit func(string), join func(string
 		"distio pat=6f75745f:2e6661737461 cl=73616d706c65 A old=6f75745f412e6661737461:6f6c6431.6f6c6432,6f746865722e6661737461:6f6c6433 bs=2 w=2 | 61,6163,73616d706c65=s41 ; 62,6163,- ; 63,6163,73616d706c65=s41",
 		"distio pat=6f75745f:2e6661737461 cl=73616d706c65 old=6f75745f412e6661737461:6f6c6431.6f6c6432,6f746865722e6661737461:6f6c6433 bs=2 w=2 | 61,6163,73616d706c65=s41 ; 62,6163,- ; 63,6163,73616d706c65=s41",
 		"distio pat=62:- n=2 z A old=62312e677a:6f6c6431 bs=2 w=2 | 61,6163,- ; 62,6163,- ; 63,6163,-",
+		// the pattern as it is typed: text, %% and exactly one %s are accepted; anything else (no verb: the unrepaired code wrote out.fasta%!(EXTRA string=A)...;
+		// %.0s / %[2]s: every class got the same file and the records of all classes but one were lost) must stop the command
+		"distio rawpat=6f75745f25732e6661737461 cl=73616d706c65 z bs=2 w=2 | 61,6163,73616d706c65=s41 ; 62,6163,- ; 63,6163,6b=i1 ; 64,6163,73616d706c65=s42 ; 65,61,73616d706c65=s41",
+		"distio rawpat=6f75745f25732e6661737461 n=2 bs=2 w=3 | 61,6163,73616d706c65=s41 ; 62,6163,- ; 63,6163,6b=i1 ; 64,6163,73616d706c65=s42 ; 65,61,73616d706c65=s41",
+		"distio rawpat=7025255f25732e6661 cl=73616d706c65 z bs=2 w=2 | 61,6163,73616d706c65=s41 ; 62,6163,- ; 63,6163,6b=i1 ; 64,6163,73616d706c65=s42 ; 65,61,73616d706c65=s41",
+		"distio rawpat=7025255f25732e6661 n=2 bs=2 w=3 | 61,6163,73616d706c65=s41 ; 62,6163,- ; 63,6163,6b=i1 ; 64,6163,73616d706c65=s42 ; 65,61,73616d706c65=s41",
+		"distio rawpat=78257325252e677a cl=73616d706c65 z bs=2 w=2 | 61,6163,73616d706c65=s41 ; 62,6163,- ; 63,6163,6b=i1 ; 64,6163,73616d706c65=s42 ; 65,61,73616d706c65=s41",
+		"distio rawpat=78257325252e677a n=2 bs=2 w=3 | 61,6163,73616d706c65=s41 ; 62,6163,- ; 63,6163,6b=i1 ; 64,6163,73616d706c65=s42 ; 65,61,73616d706c65=s41",
+		"distio rawpat=5225252573 cl=73616d706c65 z bs=2 w=2 | 61,6163,73616d706c65=s41 ; 62,6163,- ; 63,6163,6b=i1 ; 64,6163,73616d706c65=s42 ; 65,61,73616d706c65=s41",
+		"distio rawpat=5225252573 n=2 bs=2 w=3 | 61,6163,73616d706c65=s41 ; 62,6163,- ; 63,6163,6b=i1 ; 64,6163,73616d706c65=s42 ; 65,61,73616d706c65=s41",
+		"distio rawpat=6f75742e6661737461 cl=73616d706c65 bs=2 w=2 | 61,6163,73616d706c65=s41 ; 62,6163,- ; 63,6163,6b=i1 ; 64,6163,73616d706c65=s42 ; 65,61,73616d706c65=s41",
+		"distio rawpat=6f7574252e30732e6661737461 cl=73616d706c65 bs=2 w=2 | 61,6163,73616d706c65=s41 ; 62,6163,- ; 63,6163,6b=i1 ; 64,6163,73616d706c65=s42 ; 65,61,73616d706c65=s41",
+		"distio rawpat=6f75745f255b325d732e6661 cl=73616d706c65 bs=2 w=2 | 61,6163,73616d706c65=s41 ; 62,6163,- ; 63,6163,6b=i1 ; 64,6163,73616d706c65=s42 ; 65,61,73616d706c65=s41",
+		"distio rawpat=6f252e31732e6661 cl=73616d706c65 bs=2 w=2 | 61,6163,73616d706c65=s41 ; 62,6163,- ; 63,6163,6b=i1 ; 64,6163,73616d706c65=s42 ; 65,61,73616d706c65=s41",
+		"distio rawpat=6f5f2525732e6661 cl=73616d706c65 bs=2 w=2 | 61,6163,73616d706c65=s41 ; 62,6163,- ; 63,6163,6b=i1 ; 64,6163,73616d706c65=s42 ; 65,61,73616d706c65=s41",
+		"distio rawpat=6f5f25642e6661 cl=73616d706c65 bs=2 w=2 | 61,6163,73616d706c65=s41 ; 62,6163,- ; 63,6163,6b=i1 ; 64,6163,73616d706c65=s42 ; 65,61,73616d706c65=s41",
+		"distio rawpat=6f5f25735f25732e6661 cl=73616d706c65 bs=2 w=2 | 61,6163,73616d706c65=s41 ; 62,6163,- ; 63,6163,6b=i1 ; 64,6163,73616d706c65=s42 ; 65,61,73616d706c65=s41",
+		"distio rawpat=6f5f2535732e6661 cl=73616d706c65 bs=2 w=2 | 61,6163,73616d706c65=s41 ; 62,6163,- ; 63,6163,6b=i1 ; 64,6163,73616d706c65=s42 ; 65,61,73616d706c65=s41",
+		"distio rawpat=6f5f252d33732e6661 cl=73616d706c65 bs=2 w=2 | 61,6163,73616d706c65=s41 ; 62,6163,- ; 63,6163,6b=i1 ; 64,6163,73616d706c65=s42 ; 65,61,73616d706c65=s41",
+		"distio rawpat=6f5f25762e6661 cl=73616d706c65 bs=2 w=2 | 61,6163,73616d706c65=s41 ; 62,6163,- ; 63,6163,6b=i1 ; 64,6163,73616d706c65=s42 ; 65,61,73616d706c65=s41",
+		"distio rawpat=6f25 cl=73616d706c65 bs=2 w=2 | 61,6163,73616d706c65=s41 ; 62,6163,- ; 63,6163,6b=i1 ; 64,6163,73616d706c65=s42 ; 65,61,73616d706c65=s41",
+		"distio rawpat=6f2525 cl=73616d706c65 bs=2 w=2 | 61,6163,73616d706c65=s41 ; 62,6163,- ; 63,6163,6b=i1 ; 64,6163,73616d706c65=s42 ; 65,61,73616d706c65=s41",
+		"distio rawpat=6f5f252b73 cl=73616d706c65 bs=2 w=2 | 61,6163,73616d706c65=s41 ; 62,6163,- ; 63,6163,6b=i1 ; 64,6163,73616d706c65=s42 ; 65,61,73616d706c65=s41",
+		// %.1s: the classes B and B1 share the file oB.fa in the unrepaired code
+		"distio rawpat=6f252e31732e6661 cl=73616d706c65 bs=1 w=2 | 61,6163,73616d706c65=s42 ; 62,6163,73616d706c65=s4231 ; 63,6163,73616d706c65=s42 ; 64,61,73616d706c65=s4231",
+		"distio rawpat=6f7574252e30732e6661737461 H=3 bs=2 w=2 | 61,6163,73616d706c65=s41 ; 62,6163,- ; 63,6163,6b=i1 ; 64,6163,73616d706c65=s42 ; 65,61,73616d706c65=s41",
+		"distio rawpat=6f75742e6661 n=2 bs=1 w=2 | 61,6163,73616d706c65=s41 ; 62,6163,- ; 63,6163,6b=i1 ; 64,6163,73616d706c65=s42 ; 65,61,73616d706c65=s41",
 	} {
 		emit(c)
 	}
@@ -1120,6 +1216,46 @@ func c16GenPipe(rng *rand.Rand, tier string, emit func(string), join func(string
 			}
 		} else if rng.Intn(8) == 0 {
 			toks = append(toks, "A")
+		}
+		toks = append(toks, c16RandLayout(rng, len(recs))...)
+		emit("distio " + strings.Join(toks, " ") + " | " + c16ShowRecs(recs))
+	}
+	// obidistribute: the pattern as it is typed (accepted: text, %% and one %s; refused: everything else)
+	rawGood := []string{"out_%s.fasta", "b%s", "p%%_%s.fa", "x%s%%.gz", "a%s.fa.gz", "R%%%s", "q%s.gz", "w%%%%%s_"}
+	rawBad := []string{"out.fasta", "out%.0s.fa", "o_%[2]s.fa", "o%.1s.fa", "o_%%s.fa", "o_%d.fa", "o_%s_%s.fa", "o_%5s.fa", "o_%v.fa", "o%", "o_%-3s.fa", "o%%", "o_%[1]s", "o_%s%"}
+	for i := 0; i < n/10; i++ {
+		recs := c16ManyRecs(rng, false, 1+rng.Intn(10))
+		for j := range recs {
+			for k, v := range recs[j].r.attrs {
+				if !c16IdRe.MatchString(v.shown()) {
+					recs[j].r.attrs[k] = c16Val{kind: 's', s: []string{"A", "B", "s1", "x_9"}[rng.Intn(4)]}
+				}
+			}
+		}
+		raw := rawGood[rng.Intn(len(rawGood))]
+		if i%6 == 5 {
+			raw = rawBad[rng.Intn(len(rawBad))]
+			stat("distio.rawpat.bad")
+		} else {
+			stat("distio.rawpat.good")
+		}
+		toks := []string{"rawpat=" + hs(raw)}
+		switch rng.Intn(3) {
+		case 0:
+			toks = append(toks, "cl="+hs(c16Keys[rng.Intn(len(c16Keys))]))
+			if rng.Intn(2) == 0 {
+				toks = append(toks, "dir="+hs(c16Keys[rng.Intn(len(c16Keys))]))
+			}
+		case 1:
+			toks = append(toks, fmt.Sprintf("n=%d", 1+rng.Intn(5)))
+		default:
+			toks = append(toks, fmt.Sprintf("H=%d", 1+rng.Intn(6)))
+		}
+		if rng.Intn(3) == 0 {
+			toks = append(toks, "z")
+		}
+		if rng.Intn(3) == 0 {
+			toks = append(toks, "long")
 		}
 		toks = append(toks, c16RandLayout(rng, len(recs))...)
 		emit("distio " + strings.Join(toks, " ") + " | " + c16ShowRecs(recs))
